@@ -35,7 +35,7 @@ CycPlain(sc, c, n, org) == StartPlain(sc, n, org) \div (c * sc.TS)
 FirstPlain(sc, c, n, org) ==
    LET b == CycPlain(sc, c, n, org) * c * sc.TS
    IN CHOOSE m \in 0..n : /\ StartPlain(sc, m, org) >= b
-                          /\ \A m2 \in 0..(m - 1) : StartPlain(sc, m2, org) < b
+                          /\ (m = 0 \/ StartPlain(sc, m - 1, org) < b)      \* starts are increasing (C01)
 IdxPlain(sc, c, n, org) == n - FirstPlain(sc, c, n, org)
 
 \* ---- overflow-free form for wall-clock sized media times (TLC integers are 32 bit)
